@@ -64,6 +64,10 @@ func init() {
 		e.P("/-- every use of a session connection (`.conn`, `.wsconn`, `.dataChannel`) in service/rtsp and service/wsp that is not")
 		e.P("    a read / address / deadline / close call: (file, function, call or assignment), sorted -/")
 		e.P("def connUses : List String := %s", LeanStrList(connUses(e)))
+		// the scratch buffers in which the WebSocket writers compose their messages OUTSIDE lockW come from a
+		// sync.Pool: a buffer is private to its user only if every Get is matched by exactly one Put
+		e.P("/-- every function of service/rtsp and service/wsp that uses the `buffers` pool: (file:function, Get calls, deferred Put calls, other Put calls) -/")
+		e.P("def poolUses : List (String × Nat × Nat × Nat) := %s", poolUses(e))
 	})
 }
 
@@ -161,6 +165,80 @@ func connUses(e *Emitter) []string {
 	}
 	sort.Strings(out)
 	return out
+}
+
+// poolUses counts buffers.Get / buffers.Put per function
+func poolUses(e *Emitter) string {
+	root := "/repo"
+	if f := flag.Lookup("repo"); f != nil {
+		root = f.Value.String()
+	}
+	var rows []string
+	for _, dir := range []string{"service/rtsp", "service/wsp"} {
+		fis, err := ioutil.ReadDir(filepath.Join(root, dir))
+		if err != nil {
+			e.Unknown("poolUses:" + dir)
+			continue
+		}
+		for _, fi := range fis {
+			name := fi.Name()
+			if fi.IsDir() || !strings.HasSuffix(name, ".go") || strings.HasSuffix(name, "_test.go") {
+				continue
+			}
+			f := Parse(dir + "/" + name)
+			if f == nil {
+				e.Unknown("poolUses:" + dir + "/" + name)
+				continue
+			}
+			for _, d := range f.Decls {
+				fd, ok := d.(*ast.FuncDecl)
+				if !ok || fd.Body == nil {
+					continue
+				}
+				fn := fd.Name.Name
+				if fd.Recv != nil && len(fd.Recv.List) > 0 {
+					fn = strings.TrimPrefix(Src(fd.Recv.List[0].Type), "*") + "." + fn
+				}
+				gets, dputs, puts := 0, 0, 0
+				deferred := map[*ast.CallExpr]bool{}
+				ast.Inspect(fd.Body, func(n ast.Node) bool {
+					switch x := n.(type) {
+					case *ast.DeferStmt:
+						deferred[x.Call] = true
+					case *ast.CallExpr:
+						switch strings.Join(strings.Fields(Src(x.Fun)), "") {
+						case "buffers.Get":
+							gets++
+						case "buffers.Put":
+							if deferred[x] {
+								dputs++
+							} else {
+								puts++
+							}
+						}
+					}
+					return true
+				})
+				if gets+dputs+puts > 0 {
+					rows = append(rows, "("+LeanStr(dir+"/"+name+":"+fn)+", "+itoa(gets)+", "+itoa(dputs)+", "+itoa(puts)+")")
+				}
+			}
+		}
+	}
+	sort.Strings(rows)
+	return "[" + strings.Join(rows, ", ") + "]"
+}
+
+func itoa(n int) string {
+	if n == 0 {
+		return "0"
+	}
+	s := ""
+	for n > 0 {
+		s = string(rune('0'+n%10)) + s
+		n /= 10
+	}
+	return s
 }
 
 func calls(n ast.Node) []string {
